@@ -24,9 +24,10 @@ CONSTANTS Inits,      \* subset of InitNames
           UseClose    \* close_wallet / open_wallet in histories
 
 \* choices for HistOps (a .cfg cannot write tuples): `HistOps <- HistOpsShort`
-HistOpsShort == {<<"init_send_tx", "plain">>, <<"tx_lock_outputs", "ctx">>, <<"finalize_tx", "reply">>, <<"cancel_tx", "byid">>}
+HistOpsShort == {<<"init_send_tx", "plain">>, <<"tx_lock_outputs", "ctx">>, <<"finalize_tx", "reply">>, <<"cancel_tx", "byid">>,
+                 <<"set_active_account", "second">>}
 HistOpsFull  == HistOpsShort \cup
-                {<<"create_account_path", "new">>, <<"set_active_account", "second">>, <<"set_active_account", "default">>,
+                {<<"create_account_path", "new">>, <<"set_active_account", "default">>,
                  <<"issue_invoice_tx", "plain">>, <<"process_invoice_tx", "plain">>, <<"build_output", "plain">>,
                  <<"retrieve_summary_info", "refresh">>}
 
@@ -48,7 +49,7 @@ HistCall ==
        LET e == Exec(w, mv[1], mv[2], Tok(w, "right"))
            t == Exec(u, mv[1], mv[2], Tok(u, "right")) IN
        /\ e.w # w
-       /\ e.w.f.nacct <= 1
+       /\ e.w.f.nacct <= 2
        /\ w' = e.w /\ u' = t.w
        /\ hist' = Append(hist, [op |-> "call", m |-> mv[1], v |-> mv[2]])
        /\ last' = [k |-> "hist", m |-> mv[1], v |-> mv[2], tok |-> "right"]
@@ -85,7 +86,7 @@ View == <<w, u, init, closed>>
 
 TypeOK == /\ w.inst \in BOOLEAN /\ w.masked /\ ~u.masked
           /\ w.gen \in 1..MaxGen /\ u.gen = 0
-          /\ w.f.free \in 0..3 /\ w.f.nacct \in 0..1
+          /\ w.f.free \in 0..3 /\ w.f.nacct \in 1..2
           /\ w.active \in {"default", "acct1"}
 
 \* --------------------------------------------------------------- checking
